@@ -274,16 +274,20 @@ fn exec_bin(opname: &str, dt: &str, sa: &[usize], sb: &[usize], seed: u64) -> (S
             alts.push(format!("({}%N, {})", p, bres_of(r)));
         }
     }
+    // rten-tensor's public answer to "can b be broadcast to a's shape" (what
+    // can_run_binary_op_in_place computes)
+    let cbt = rten_tensor::Tensor::<i32>::zeros(sb).can_broadcast_to(sa);
     let bop = match opname { "Add" => "BAdd", "Sub" => "BSub", _ => "BMul" };
     let bcast = sa != sb;
     let tag = if normal.starts_with("BOk") { format!("bin-{}{}", opname, if bcast { "-bcast" } else { "" }) } else { "trivial-bin-err".to_string() };
     let term = format!(
-        "Bin {} {} {} {} {} ({}) [{}]",
+        "Bin {} {} {} {} {} {} ({}) [{}]",
         bop,
         coq_n(sa),
         coq_n(sb),
         coq_z(a.vals.iter().map(|&x| x as i64)),
         coq_z(b.vals.iter().map(|&x| x as i64)),
+        cbt,
         normal,
         alts.join(";")
     );
